@@ -74,7 +74,7 @@ PROPS = {
             "in/out from an edge ignore the label list (as the code does); the documentation does not say otherwise",
             "the null-producing moves are read as a left outer join (the traveler is kept, without a current element, exactly when the plain move yields nothing, an edge to an absent vertex counting as nothing): what kvgraph's GetInChannel, the Mongo pipeline's preserveNullAndEmptyArrays and, since fix b223fe4, kvgraph's GetOutChannel do; no document of the repository defines them",
         ],
-        "assumptions": ["fields()/unwind() are exercised on top-level property names only (nested include/exclude paths of jsonpath are not modelled)",
+        "assumptions": ["fields() is exercised on top-level property names only (nested include/exclude paths of jsonpath are not modelled); unwind() also on nested paths",
                         "programs whose window/distinct step is followed by anything but count are compared by size only (their rows depend on scan order)"],
     },
     "C02": {
